@@ -539,7 +539,7 @@ def check_edges(ctx, cases, pool):
 def run(ctx):
     n = 40 if ctx.quick() else 300
     cases = gen_cases(ctx, n)
-    suspects = model_search(ctx, 1500 if ctx.quick() else 60000)
+    suspects = model_search(ctx, 1500 if ctx.quick() else 30000)
     for s in suspects[:6]:
         s['only'] = ['proximity', 'allocation', 'direction']
     pool = c06.ImplPool(NWORKERS)
